@@ -780,6 +780,7 @@ def run(ctx: Ctx) -> None:
 
 # ---------------------------------------------------------------------------
 WITNESSES = [
+    {"name": "seeded-C07-11", "file": "core/discipline/discipline.py", "old": "\n        if not self._linearize_on_last_state:\n            # The data shall be reset to their original values\n            # in case an input is also an output,\n            # if we don't want to keep the computed state (as in MDAs).\n            self.io.data.update(input_data)\n\n", "new": "\n            if not self._linearize_on_last_state:\n                # The data shall be reset to their original values\n                # in case an input is also an output,\n                # if we don't want to keep the computed state (as in MDAs).\n                self.io.data.update(input_data)\n\n", "expect": "7.7", "note": "Discipline.linearize(execute=False) no longer resets the local data to the given"},
     {"name": "seeded-C07-10", "file": "core/derivatives/jacobian_assembly.py", "old": "                        elif isinstance(jacobian_copy, sparse_classes):", "new": "                        elif isinstance(jacobian_copy, csr_matrix):", "expect": "7.3"},
     {"name": "sparse-identity-on-the-discipline-jacobian", "file": ASM, "old": "                        # Make a copy to avoid in-place modifications\n                        jacobian_copy = jacobian.copy()\n\n                        if isinstance(jacobian_copy, ndarray):\n", "new": "                        jacobian_copy = jacobian\n\n                        if isinstance(jacobian_copy, ndarray):\n                            jacobian_copy = jacobian.copy()\n", "expect": "7.3"},
     {"name": "real-operator-transposed-product-is-forward", "file": JOP, "old": "        return self.__operator.rmatvec(x).real", "new": "        return self.__operator.matvec(x).real", "expect": "7.5"},
